@@ -91,6 +91,9 @@ func Shrink(sc *Scenario, test func(*Scenario) bool, deadline time.Time) (*Scena
 			func(c *Cfg) bool { ch := c.Scribble; c.Scribble = false; return ch },
 			func(c *Cfg) bool { ch := c.SpareCap; c.SpareCap = false; return ch },
 			func(c *Cfg) bool { ch := c.Warm; c.Warm = false; return ch },
+			func(c *Cfg) bool { ch := c.ScribbleResults; c.ScribbleResults = false; return ch },
+			func(c *Cfg) bool { ch := c.PkgLimit != 0; c.PkgLimit = 0; return ch },
+			func(c *Cfg) bool { ch := c.PkgNegOff; c.PkgNegOff = false; return ch },
 		}
 		for _, f := range cfgTries {
 			c := best.Clone()
